@@ -107,3 +107,44 @@ func CdExtraGuard(s *ctlState, xs []int) {
 		}
 	}
 }
+
+// NpIndexBad indexes without a length guard; NpIndexGood has one.
+func NpIndexBad(s string) byte { return s[0] }
+func NpIndexGood(s string) byte {
+	if len(s) > 0 {
+		return s[0]
+	}
+	return 0
+}
+
+// NpSliceBad slices by an unchecked search result; NpSliceGood checks it.
+func NpSliceBad(s string, i int) string { return s[i:] }
+func NpSliceGood(s string, i int) string {
+	if i >= 0 && i <= len(s) {
+		return s[i:]
+	}
+	return s
+}
+
+// NpNilBad dereferences a pointer it elsewhere compares with nil.
+func NpNilBad(p *int, b bool) int {
+	if p == nil && b {
+		return 0
+	}
+	return *p
+}
+func NpNilGood(p *int) int {
+	if p != nil {
+		return *p
+	}
+	return 0
+}
+
+// NpKindBad calls IsNil without a kind guard.
+func NpKindBad(v reflect.Value) bool { return v.IsNil() }
+func NpKindGood(v reflect.Value) bool {
+	if v.Kind() == reflect.Ptr {
+		return v.IsNil()
+	}
+	return false
+}
